@@ -101,7 +101,7 @@ OptimisticLock::PrepareRead()  //
         *cur = lock->load(kAcquire);
         return (*cur & kXLock) == kNoLocks
                && ((*cur & kAllLockMask)
-                   || lock->compare_exchange_weak(*cur, *cur + kSLock, kRelaxed, kRelaxed));
+                   || lock->compare_exchange_weak(*cur, *cur + kSLock, kAcquire, kRelaxed));
       },
       &lock_, &cur);
 
@@ -164,13 +164,13 @@ OptimisticLock::LockX()  //
 void
 OptimisticLock::UnlockS()
 {
-  lock_.fetch_sub(kSLock, kRelaxed);
+  lock_.fetch_sub(kSLock, kRelease);
 }
 
 void
 OptimisticLock::UnlockSIX()
 {
-  lock_.fetch_xor(kSIXLock, kRelaxed);
+  lock_.fetch_xor(kSIXLock, kRelease);
 }
 
 void
@@ -318,7 +318,7 @@ OptimisticLock::OptGuard::TryLockS()  //
         *cur = lock->load(kAcquire);
         return (*cur & kXLock) == kNoLocks
                && ((*cur & kVersionMask) != ver
-                   || lock->compare_exchange_weak(*cur, *cur + kSLock, kRelaxed, kRelaxed));
+                   || lock->compare_exchange_weak(*cur, *cur + kSLock, kAcquire, kRelaxed));
       },
       &(dest_->lock_), &cur, ver_);
 
@@ -337,7 +337,7 @@ OptimisticLock::OptGuard::TryLockSIX()  //
         *cur = lock->load(kAcquire);
         return (*cur & kXMask) == kNoLocks
                && ((*cur & kVersionMask) != ver
-                   || lock->compare_exchange_weak(*cur, *cur | kSIXLock, kRelaxed, kRelaxed));
+                   || lock->compare_exchange_weak(*cur, *cur | kSIXLock, kAcquire, kRelaxed));
       },
       &(dest_->lock_), &cur, ver_);
 
@@ -356,7 +356,7 @@ OptimisticLock::OptGuard::TryLockX()  //
         *cur = lock->load(kAcquire);
         return (*cur & kAllLockMask) == kNoLocks
                && ((*cur & kXAndVersionMask) != ver
-                   || lock->compare_exchange_weak(*cur, *cur | kXLock, kRelaxed, kRelaxed));
+                   || lock->compare_exchange_weak(*cur, *cur | kXLock, kAcquire, kRelaxed));
       },
       &(dest_->lock_), &cur, ver_);
 
